@@ -11,6 +11,7 @@
 -/
 import Hy.Proofs.C18Gate
 import Hy.Proofs.C18Mux
+import Hy.Proofs.C18Mgr
 import Hy.Gen.App
 set_option linter.unusedSimpArgs false
 set_option linter.unusedVariables false
@@ -357,6 +358,137 @@ theorem fixed_histories_close :
       .aloopQuit]).conn 0 = .closed := by decide
 
 end mux
+
+/-! ## the manager (manager.go): canonical address ↦ mux, registration, release -/
+section mgr
+open Hy.Mux Hy.MuxMgr
+
+/-- every mux state reached through the manager API — under EVERY manager-level schedule of
+    ListenSOCKS/ListenHTTP calls (two steps each), closes, arrivals and mux steps, with or
+    without a wake-up on registration — is a state of the mux transition system, so `routing`,
+    `no_panic_no_leak`, `exactly_one_or_closed` … hold for every mux the manager ever created -/
+theorem mgr_projects_to_mux (wake : Bool) (msched : List MLabel) (id : Nat) (w : MuxW)
+    (h : (mrun wake minit msched).muxes[id]? = some w) : ∃ sched, w.st = run fixed init sched :=
+  mux_reachable wake msched id w h
+
+/-- `exactly_one_or_closed`, ranging over manager-level schedules -/
+theorem exactly_one_or_closed_mgr (wake : Bool) (msched : List MLabel) (id : Nat) (w : MuxW) (c : Nat)
+    (h : (mrun wake minit msched).muxes[id]? = some w) :
+    nEv w.st c = (terminal (w.st.conn c)).toNat ∧
+    (∀ more, terminal (w.st.conn c) = true → (run fixed w.st more).conn c = w.st.conn c) ∧
+    w.st.conn c ≠ .leaked ∧ w.st.panicked = false ∧
+    (∀ b t, w.st.conn c = .delivered b t ∨ w.st.conn c = .pending b t →
+      ∃ sb, w.st.subs[t]? = some sb ∧ sb.kind = (if b.val = 5 then Kind.socks else Kind.http)) := by
+  obtain ⟨sched, hs⟩ := mux_reachable wake msched id w h
+  have e := exactly_one_or_closed sched c
+  simp only [] at e
+  rw [hs]
+  exact ⟨e.1, e.2.1, e.2.2.1, e.2.2.2.1, fun b t hbt => routing sched c b t hbt⟩
+
+/-- one muxListener — one base listener, one routing decision — per canonical address:
+    (1) a call on an address that is in the map creates nothing and is directed to the mux that
+    is there; (2) at every moment at most one OPEN base listener exists per address, and it is
+    the one the map points to (so a base listener is never orphaned while open) -/
+theorem one_mux_per_address (wake : Bool) (msched : List MLabel) :
+    let m := mrun wake minit msched
+    (∀ (k : Kind) (key : Nat) (ok : Bool) (id : Nat), m.table key = some id →
+      (mstep wake m (.call k key ok)).muxes = m.muxes ∧ (mstep wake m (.call k key ok)).table = m.table ∧
+      (mstep wake m (.call k key ok)).pending = m.pending ++ [(k, id)]) ∧
+    (∀ (i j : Nat) (wi wj : MuxW), m.muxes[i]? = some wi → m.muxes[j]? = some wj → wi.baseOpen = true → wj.baseOpen = true →
+      wi.key = wj.key → i = j) ∧
+    (∀ (i : Nat) (wi : MuxW), m.muxes[i]? = some wi → wi.baseOpen = true → m.table wi.key = some i) := by
+  intro m
+  have inv : MInv m := minv_run wake minit msched minv_init
+  refine ⟨?_, ?_, inv.t2⟩
+  · intro k key ok id h; simp [mstep, h]
+  · intro i j wi wj hi hj bi bj hk
+    have a := inv.t2 i wi hi bi
+    have b := inv.t2 j wj hj bj
+    rw [hk, b] at a; simpa using a.symm
+
+/-- a second SOCKS — or HTTP — registration on a mux whose sub-listener of that kind is live is
+    refused (ErrProtocolInUse) and changes nothing but the log -/
+theorem kind_registered_at_most_once (s : St) (k : Kind) (t : Nat)
+    (hs : s.slot k = some t) (hlive : subClosed s.subs t = false) :
+    let s' := step fixed s (.listen k)
+    s'.log = .listen k .inUse :: s.log ∧ s'.subs = s.subs ∧ s'.socks = s.socks ∧ s'.http = s.http ∧
+    s'.conn = s.conn ∧ s'.phase = s.phase ∧ s'.aloop = s.aloop := by
+  simp [step, listen, hs, hlive]
+
+/-- release, for the code AS IT IS (and for the hypothetical wake variant alike): in every
+    reachable manager state, for every order of registrations and closes that led there — once
+    every sub-listener of a mux is closed AND mainLoop's view is current (`CaptureCurrent`: it
+    is at its loop head, e.g. because a connection has just been handed to it, or the close
+    channels it captured are those of the registered sub-listeners, i.e. every registration
+    precedes its current capture), mainLoop's own next five steps (capture, see SOCKS closed,
+    capture, see HTTP closed, run the deferred function) close the base listener and delete the
+    map entry. Without that hypothesis release can be late: `D16_late_registration_observation`. -/
+theorem release_on_last_close (wake : Bool) (msched : List MLabel) (id : Nat) (w : MuxW)
+    (h : (mrun wake minit msched).muxes[id]? = some w) (hall : allClosed w = true) (hopen : w.baseOpen = true)
+    (hcur : CaptureCurrent w) :
+    let m' := mrun wake (mrun wake minit msched) (releaseSched id)
+    (∃ w', m'.muxes[id]? = some w' ∧ w'.baseOpen = false) ∧ m'.table w.key = none := by
+  intro m'
+  have hw : WInv w := mux_induction WInv wake winv_new (fun w k => winv_register wake w k) winv_capture winv_stepMux msched id w h
+  obtain ⟨sched, hs⟩ := mux_reachable wake msched id w h
+  have hi : SlotValid w.st := by rw [hs]; exact (inv_run init sched inv_init).slotValid
+  have hc := releaseW_closes w hw hcur hi hall
+  obtain ⟨g, gt⟩ := release_run wake _ id w h
+  exact ⟨⟨releaseW w, g, hc⟩, gt hopen hc⟩
+
+/-- the hypothesis is met whenever mainLoop has just been woken (it is at its loop head): so one
+    further accepted connection always brings the release -/
+theorem capture_current_at_loop_head (w : MuxW) (h : w.atTop = true) : CaptureCurrent w := by
+  intro _ h2; rw [h] at h2; simp at h2
+
+/-- … and only then: the base listener is closed only by mainLoop's deferred function, and
+    mainLoop leaves its loop only when both registration slots are empty or the base listener's
+    Accept has failed -/
+theorem base_closed_only_on_exit (w : MuxW) (l : Label) (hopen : w.baseOpen = true)
+    (hclosed : (stepMux w l).baseOpen = false) : l = .exitA ∧ w.st.phase = .exiting := by
+  cases l <;> simp only [stepMux] at hclosed
+  case exitA =>
+    split at hclosed
+    · rename_i hp; exact ⟨rfl, hp⟩
+    · rw [hopen] at hclosed; simp at hclosed
+  all_goals (repeat' split at hclosed) <;> simp_all
+
+theorem exit_only_when_idle_or_accept_failed (s : St) (l : Label)
+    (h1 : s.phase = .running) (h2 : (step fixed s l).phase = .exiting) :
+    ((step fixed s l).socks = none ∧ (step fixed s l).http = none) ∨ s.aloop = .done := by
+  cases l <;> simp only [step, listen] at h2 ⊢
+  all_goals (repeat' split at h2) <;> simp_all
+
+/-- a listen on a RELEASED address (no map entry: never listened on, or its mux has run its
+    deferred function) creates a fresh mux with a new, open base listener and makes the map
+    point to it -/
+theorem relisten_opens_fresh (wake : Bool) (m : MSt) (k : Kind) (key : Nat) (h : m.table key = none) :
+    let m' := mstep wake m (.call k key true)
+    m'.table key = some m.muxes.length ∧
+    ∃ w, m'.muxes[m.muxes.length]? = some w ∧ w.key = key ∧ w.baseOpen = true ∧ w.st.subs = [] ∧ w.st.phase = .running := by
+  simp [mstep, h]
+
+/-- an observation about the code as it is (noticed, not part of the property: no connection is
+    affected): mainLoop reaches its select before the first sub-listener is registered (the
+    history `mgr lLS@a0 X0` of the harness); that sub-listener is closed; mainLoop's release steps
+    do nothing — the base listener stays open and the address stays in the map — until one more
+    connection is accepted: it finds no handler and is closed, mainLoop wakes, and the same
+    release steps now close the base listener and delete the map entry -/
+theorem D16_late_registration_observation :
+    let late : List MLabel := [.call .socks 0 true, .capture 0, .register 0 .socks, .mux 0 (.closeSub 0)]
+    let m := mrun false minit (late ++ releaseSched 0)
+    let m2 := mrun false m ([.mux 0 (.baseAccept 7), .mux 0 .handToMain, .mux 0 (.readFail 7)] ++ releaseSched 0)
+    (m.muxes.map (·.baseOpen)) = [true] ∧ m.table 0 = some 0 ∧ (m.muxes.map allClosed) = [true] ∧
+    (m2.muxes.map (·.baseOpen)) = [false] ∧ m2.table 0 = none ∧ (m2.muxes.map (fun w => w.st.conn 7)) = [.closed] := by
+  decide
+
+/-- the hypothesis of `release_on_last_close` is an invariant of the hypothetical variant in
+    which a registration wakes mainLoop — which is exactly what the code does not do -/
+theorem capture_current_if_registration_woke (msched : List MLabel) (id : Nat) (w : MuxW)
+    (h : (mrun true minit msched).muxes[id]? = some w) : CaptureCurrent w :=
+  captureCurrent_wake msched id w h
+
+end mgr
 
 /-! ### non-vacuity: concrete instances -/
 section examples
